@@ -848,14 +848,16 @@ func (ctx *actorContext) tryTerminated() {
 		return
 	}
 
-	ctx.internalPersistence()
-
 	if !ctx.status.CompareAndSwap(actorStatusTerminating, actorStatusTerminated) {
 		return
 	}
 
 	terminatedMessage := &OnTerminated{TerminatedActor: ctx.ref}
 	ctx.processMessage(ctx.sender, ctx.ref, terminatedMessage, false)
+
+	// the journal is written after the last handler of the instance has run (as in a restart), so that an event recorded
+	// while handling its own OnTerminated is not lost, and before anything makes the end of the actor observable
+	ctx.internalPersistence()
 
 	// the subscriptions are released after the last handler has run, so that a subscription made inside
 	// OnTerminated is not left behind in the subscription table of a dead actor
